@@ -42,6 +42,15 @@ THEOREMS = [
     "rvbMove_inside_flipped",
     "rvbMove_rebond_target",
     "ex_isRvbMove",
+    # (v) the proposal: exact model of build_cluster / WeightedBoundaryManager, proposal symmetry
+    "proposal_depends_on_skeleton_only",
+    "rvbMove_preserves_skeleton",
+    "proposal_symmetric",
+    "proposalProb_symmetric",
+    "rvb_detailed_balance_full",
+    "rvb_detailed_balance_full_cfg",
+    "ex_proposal",
+    "edgeOpsNotConst_needed",
 ]
 
 RULE = ("rvb-updates: Ising samplers (frustrated triangle, triangle with unequal dyadic |J|, ring with one flipped bond, multi-edges, bow-tie with h != 0, random graphs, "
@@ -64,4 +73,6 @@ def main(ck):
         ck.correspond("rvb-updates", "drv_c03", [c for c in cases if not c["input"].startswith("region ")])
         # the exact proposal model (QmcModel/RvbRegion.lean) replayed on the recorded draws of every proposed update
         ck.correspond("region", "drv_c03", [c for c in cases if c["input"].startswith("region ")])
+        # the RVB step embedded in `timestep` (its own copies of the weight closures) vs the explicit decomposition
+        ck.correspond("timestep-embedded-rvb", "drv_c03", ck.harness("c03", ["pipeline"]))
     return ck.finish(RULE)
